@@ -121,6 +121,7 @@ type c08Result struct {
 	DivergeAt    []string       `json:"diverge_at,omitempty"`
 	RecheckBad   int            `json:"recheck_bad"`
 	Dead         []string       `json:"dead,omitempty"`
+	Skipped      string         `json:"skipped,omitempty"`
 	WallS        float64        `json:"wall_s"`
 	// replay
 	Traces  []string    `json:"traces,omitempty"` // one observation-trace hash per repetition
@@ -342,6 +343,17 @@ func c08Worker(t *testing.T) {
 				w.Close()
 			}
 		case "explore":
+			// probe: a space that needs a seam this tree does not offer is skipped,
+			// visibly, instead of being reported as a harness failure
+			if pw, perr := newC08World(t, job.Scn, newDir(), nil); perr != nil && strings.Contains(perr.Error(), "SKIP:") {
+				if pw != nil {
+					pw.Close()
+				}
+				res.Skipped = perr.Error()
+				finish()
+			} else if pw != nil {
+				pw.Close()
+			}
 			var mu sync.Mutex
 			hk := map[[16]byte][16]byte{}
 			if os.Getenv("VERIF_C08_KEYDEBUG") != "" {
@@ -508,6 +520,9 @@ func c08Parallel() int {
 //	deep     at most TWO deviations of any kind, up to two of them faults
 //	product  one slow wire (fz ... un) combined with one fault at any later or
 //	         earlier point; sharded by (wire, fault kind)
+//	linkreject  the outgoing link (not the switch) rejects a forwarded Add; base budget
+//	expiry   an Add expires in the outgoing mailbox during a slow re-establishment
+//	         (cut:BC), then the incoming link restarts (cut:AB)
 func c08Spaces(thorough bool) []c08Scn {
 	const (
 		sat      = 1000
@@ -655,6 +670,46 @@ func c08Spaces(thorough bool) []c08Scn {
 			}
 			out = append(out, sc)
 		}
+	}
+	// ---- rejection at the outgoing LINK (mailbox.FailAdd), then a restart of the
+	// incoming link: a replayed Add must not be forwarded a second time -------------------
+	// (a) two payments launched together; each fits Bob->Carol alone, not both: the
+	// second AddHTLC fails in the link. The first one is failed by Carol / cancelled, so
+	// the bandwidth is back when the incoming link restarts and the invoice of the second
+	// is still open.
+	firsts := []string{"unknown"}
+	if thorough {
+		firsts = []string{"unknown", "holdcancel", "valid"}
+	}
+	for _, k0 := range firsts {
+		ps := []c08Pay{{"AC", 25000 * sat, k0, 0}, {"AC", 25000 * sat, "valid", 0}}
+		sc := c08Scn{Name: "linkreject/" + pname(ps...) + "/bobBC=60000", Pays: ps, Dev: 1, Faults: 1, Total: 1, Freeze: true, BobBCSat: 60_000}
+		if thorough && k0 == "unknown" {
+			sc.Dev, sc.Faults, sc.Total = 2, 2, 2
+			deeps = append(deeps, sc) // a large job: started early
+			continue
+		}
+		out = append(out, sc)
+	}
+	// (b) the Add expires in Bob's outgoing mailbox while the B-C connection is slow to
+	// re-establish after a cut (mailbox delivery timeout shortened to 60 ms), then cut:AB.
+	expKinds := []string{"valid"}
+	if thorough {
+		expKinds = []string{"valid", "holdsettle", "unknown"}
+	}
+	for _, k := range expKinds {
+		p := c08Pay{"AC", nonDust, k, 0}
+		sc := c08Scn{Name: "expiry/" + pname(p) + "/cutBC+cutAB", Pays: []c08Pay{p}, Dev: 0, Faults: 2, Total: 2,
+			MailboxExpiryMs: 60, SlowReest: "C>B", FaultSeq: []string{"cut:BC", "cut:AB"}}
+		if thorough {
+			sc.Dev, sc.Total, sc.Freeze = 1, 3, false
+		}
+		out = append(out, sc)
+	}
+	if thorough {
+		ps := []c08Pay{{"AC", nonDust, "valid", 0}, {"AC", nonDust, "valid", 6}}
+		out = append(out, c08Scn{Name: "expiry/" + pname(ps...) + "/cutBC+cutAB", Pays: ps, Dev: 0, Faults: 2, Total: 2,
+			MailboxExpiryMs: 60, SlowReest: "C>B", FaultSeq: []string{"cut:BC", "cut:AB"}})
 	}
 	return append(deeps, out...)
 }
@@ -854,7 +909,12 @@ func TestC08(t *testing.T) {
 		byName[s.Name] = s
 	}
 	sort.Slice(results, func(i, j int) bool { return results[i].Name < results[j].Name })
+	var skippedSpaces []string
 	for _, r := range results {
+		if r.Skipped != "" {
+			skippedSpaces = append(skippedSpaces, r.Name+": "+c08Short(r.Skipped))
+			continue
+		}
 		states += r.States
 		transitions += r.Transitions
 		replays += r.Replays
@@ -892,6 +952,11 @@ func TestC08(t *testing.T) {
 				v   c08FoundViol
 			}{byName[r.Name], v})
 		}
+	}
+	if len(skippedSpaces) > 0 {
+		exhaustive = false
+		cov["skipped_spaces"] = skippedSpaces
+		capsHit = append(capsHit, fmt.Sprintf("%d spaces skipped: a seam they need is not available on this tree", len(skippedSpaces)))
 	}
 	if len(skipped) > 0 {
 		exhaustive = false
@@ -1019,7 +1084,7 @@ func TestC08(t *testing.T) {
 	if len(divergeAt) > 0 {
 		cov["replay_divergence_examples"] = divergeAt
 	}
-	cov["rule"] = "per space (payment batch + budgets, see per_space): every event schedule of the real three-hop network (inside a synctest bubble) with at most Dev schedule deviations (out-of-order delivery, early tick, early hold resolution, slow wire fz/un) and at most Faults fault events (cut:AB, cut:BC, restart Bob), at most Total of both, relative to the default 'deliver the oldest message, tick when nothing is in flight'; base = 1/1/1, deep = 2/2/2, product = one slow wire x one fault (sharded by wire and fault kind, shards share their default prefix so sums over shards count those states once per shard); an evaluation = one execution (a fresh network replaying an event list); distinct_nontrivial = distinct canonical quiescent states (commitments of all four channel ends, circuit counts, wires, payment and invoice states, forwarding-package progress, budgets used) reached after at least one event, summed over spaces, each of which had the per-state oracle clauses evaluated; terminal_executions had the conservation clauses evaluated"
+	cov["rule"] = "per space (payment batch + budgets, see per_space): every event schedule of the real three-hop network (inside a synctest bubble) with at most Dev schedule deviations (out-of-order delivery, early tick, early hold resolution, slow wire fz/un) and at most Faults fault events (cut:AB, cut:BC, restart Bob), at most Total of both, relative to the default 'deliver the oldest message, tick when nothing is in flight'; base = 1/1/1, deep = 2/2/2, linkreject = base budget on batches where Bob's outgoing link itself rejects an Add, expiry = cut:BC then cut:AB with a 60 ms mailbox timeout and a slow re-establishment, product = one slow wire x one fault (sharded by wire and fault kind, shards share their default prefix so sums over shards count those states once per shard); an evaluation = one execution (a fresh network replaying an event list); distinct_nontrivial = distinct canonical quiescent states (commitments of all four channel ends, circuit counts, wires, payment and invoice states, forwarding-package progress, budgets used) reached after at least one event, summed over spaces, each of which had the per-state oracle clauses evaluated; terminal_executions had the conservation clauses evaluated"
 	sl := samples.List()
 	if len(sl) == 0 {
 		sl = []any{"none"}
